@@ -99,7 +99,7 @@ FALSY = [0, '', None, 0.0, False, [], 0, '']
 RHS_FAMILY = {'str_bin': 'str', 'str_hex': 'str', 'str_oct': 'str', 'str_mix': 'str', 'str_uint': 'str',
               'bytes': 'bytes-like', 'bytearray': 'bytes-like', 'memoryview': 'bytes-like', 'array': 'bytes-like',
               'bytesio': 'file-like', 'filehandle': 'file-like',
-              'list': 'iterable', 'tuple': 'iterable', 'gen': 'iterable', 'truthy': 'iterable',
+              'list': 'iterable', 'tuple': 'iterable', 'gen': 'iterable', 'truthy': 'iterable', 'truthy_iter': 'iterable',
               'bitarray': 'bitarray', 'frozenbitarray': 'bitarray'}
 
 
@@ -260,6 +260,8 @@ def build_obj(spec, lsb0: bool, made: list):
         x = cls(int(ch) for ch in bits)
     elif r == 'truthy':
         x = cls(truthy_list(bits))
+    elif r == 'truthy_iter':
+        x = cls(one_shot(truthy_list(bits), L))
     elif r == 'bitarray_auto':
         x = cls(bitarray.bitarray(bits))
     elif r == 'bitarray_little_auto':
@@ -303,6 +305,15 @@ def build_obj(spec, lsb0: bool, made: list):
     if stream and pos is not None and not (r == 'bin' and a and a[0] == 'ctorpos'):
         x.pos = pos
     return x, store
+
+
+def one_shot(items, style: int):
+    """An iterator that can be consumed once only (iter / generator / map), over arbitrary truthy and falsy items."""
+    if style % 3 == 0:
+        return iter(items)
+    if style % 3 == 1:
+        return (x for x in items)
+    return map(lambda x: x, items)
 
 
 def truthy_list(bits: str):
@@ -373,6 +384,23 @@ def build_file(cls, r, bits, a, made):
         src = pad8(filler(off) + bits, '1') + '1' * (8 * extra)
         path = write_file(to_raw(src), made)
         return cls(filename=path, offset=off, length=L if uselen else None), 'memory'
+    if r == 'file_piece':
+        # a piece of a larger file-backed object, obtained the ways a caller obtains pieces
+        pre, post, how = a
+        src = pad8(filler(pre) + bits + filler(post, '0'), '1')
+        path = write_file(to_raw(src), made)
+        big = cls(filename=path)
+        if how == 'read' and hasattr(big, 'read'):
+            big.pos = pre
+            return big.read(L), 'file'
+        if how == 'readbits' and hasattr(big, 'read'):
+            big.pos = pre
+            return big.read(f'bits:{L}'), 'file'
+        if how == 'unpack':
+            return big.unpack(f'bits:{pre}, bits:{L}')[1], 'file'
+        if how == 'cut' and L:
+            return next(big.cut(L, pre)), 'file'
+        return big[pre:pre + L], 'file'
     if r == 'file_short':
         src = pad8(bits + filler(a[0]), '0')
         path = write_file(to_raw(src), made)
@@ -382,7 +410,7 @@ def build_file(cls, r, bits, a, made):
 
 def pick_route(rng, clsname, bits, lsb0, short_ok=False):
     L = len(bits)
-    c = ['bin', 'bin', 'token_bin', 'list', 'tuple', 'gen', 'truthy', 'bitarray_auto', 'bitarray_little_auto', 'frozenbitarray_auto',
+    c = ['bin', 'bin', 'token_bin', 'list', 'tuple', 'gen', 'truthy', 'truthy_iter', 'bitarray_auto', 'bitarray_little_auto', 'frozenbitarray_auto',
          'slice', 'slice', 'copy_from']
     if L % 4 == 0:
         c += ['hex'] + (['token_hex'] if L else [])
@@ -399,7 +427,9 @@ def pick_route(rng, clsname, bits, lsb0, short_ok=False):
     if not lsb0:
         c += ['bytes_kw', 'bytes_kw', 'bitarray_kw', 'bytesio_ol', 'slice_step', 'concat']
         if L > 0:
-            c += ['file_offset']
+            c += ['file_offset', 'file_piece']
+            if L > 30000:
+                c += ['file_piece'] * 6
         if clsname in util.STREAMS:
             c += ['read']
     if clsname in util.MUTABLE:
@@ -444,6 +474,8 @@ def route_arg(rng, r, L, lsb0):
         return [off, extra, uselen]
     if r == 'file_short':
         return [rng.choice([1, 3, 8, 9, 64])]
+    if r == 'file_piece':
+        return [rng.choice([0, 0, 8, 16, 13, 4096 * 8]), rng.choice([0, 1, 5, 8, 64]), rng.choice(['read', 'readbits', 'unpack', 'cut', 'slice'])]
     return []
 
 
@@ -457,7 +489,7 @@ def pick_len(ctx):
         return rng.choice(MID)
     if k < (0.96 if ctx.quick else 0.92):
         return rng.choice(THR)
-    return rng.choice([20000] if ctx.quick else [8193, 20000, 20000, 70000])
+    return rng.choice([20000, 32771, 40003] if ctx.quick else [8193, 20000, 20000, 32768, 32771, 40003, 70000])
 
 
 def related(rng, rel, L):
@@ -518,7 +550,7 @@ def gen_objs_case(ctx):
 
 def rhs_for(rng, bits):
     L = len(bits)
-    kinds = ['str_bin', 'str_bin', 'str_mix', 'list', 'tuple', 'gen', 'truthy', 'bitarray', 'frozenbitarray']
+    kinds = ['str_bin', 'str_bin', 'str_mix', 'list', 'tuple', 'gen', 'truthy', 'truthy_iter', 'bitarray', 'frozenbitarray']
     if L % 4 == 0 and L:
         kinds += ['str_hex', 'str_hex']
     if L % 3 == 0 and L:
@@ -575,6 +607,8 @@ def build_rhs(rhs, made):
         return (int(ch) for ch in bits)
     if kind == 'truthy':
         return truthy_list(bits)
+    if kind == 'truthy_iter':
+        return one_shot(truthy_list(bits), style)
     if kind == 'bitarray':
         return bitarray.bitarray(bits, endian='little') if len(bits) % 3 == 1 else bitarray.bitarray(bits)
     if kind == 'frozenbitarray':
@@ -744,7 +778,10 @@ def judge_objs(ctx, c):
                     if not hashable[i]:
                         continue
                     g = call(lambda: hash(x))
-                    g2 = call(lambda: hash(x))
+                    with util.options(lsb0=not lsb0):          # an object's hash is fixed for its lifetime, whatever options are set meanwhile
+                        g2 = call(lambda: hash(x))
+                    if g2 == g:
+                        g2 = call(lambda: hash(x))
                     ctx.op('hash' + tag, 'ok' if g[0] == 'ok' else type(g[1]).__name__)
                     hc = stores[i] if stores[i] != 'memory' else lclass(len(obs[i]))
                     if g[0] == 'exc':
